@@ -1,5 +1,6 @@
 """Virtual-time event loop (DESIGN §2.3)."""
 import asyncio
+import heapq
 import asyncio.tasks as _tasks
 import asyncio.runners as _runners
 import weakref
@@ -34,6 +35,31 @@ class SimSelector:
         return getattr(self.real, n)
 
 
+class _TieTimer(asyncio.TimerHandle):
+    """A timer whose order among equal deadlines is given by an explicit tie-break value."""
+    __slots__ = ('_tie',)
+
+    def __lt__(self, other):
+        if isinstance(other, asyncio.TimerHandle):
+            if self._when != other._when:
+                return self._when < other._when
+            return self._tie < getattr(other, '_tie', 0)
+        return NotImplemented
+
+    def __gt__(self, other):
+        if isinstance(other, asyncio.TimerHandle):
+            if self._when != other._when:
+                return self._when > other._when
+            return self._tie > getattr(other, '_tie', 0)
+        return NotImplemented
+
+    def __le__(self, other):
+        return not self.__gt__(other)
+
+    def __ge__(self, other):
+        return not self.__lt__(other)
+
+
 class SimLoop(asyncio.SelectorEventLoop):
     """SelectorEventLoop whose clock is the kernel's virtual clock.
 
@@ -54,6 +80,28 @@ class SimLoop(asyncio.SelectorEventLoop):
 
     def time(self):
         return self.sim.now
+
+    def call_at(self, when, callback, *args, context=None):
+        # Tie-breaking: timers that a program places on one virtual instant all expire in the same loop iteration (as
+        # near-simultaneous real timers do), but in real time their order is arbitrary.  With a tie seed the order among
+        # equal deadlines is decided by the (generated) seed instead of by the heap's insertion-dependent order.
+        seed = getattr(self.sim, 'tie_seed', None)
+        if not seed:
+            return super().call_at(when, callback, *args, context=context)
+        if when is None:
+            raise TypeError("when cannot be None")
+        self._check_closed()
+        self._tie_n = getattr(self, '_tie_n', 0) + 1
+        timer = _TieTimer(when, callback, args, self, context)
+        h = (seed * 0x9E3779B1 + self._tie_n * 0x85EBCA6B) & 0xFFFFFFFF      # a small integer mix: order among ties
+        h ^= h >> 15                                                            # must not follow insertion order
+        h = (h * 0x2C1B3C6D) & 0xFFFFFFFF
+        h ^= h >> 12
+        h = (h * 0x297A2D39) & 0xFFFFFFFF
+        timer._tie = h ^ (h >> 15)
+        heapq.heappush(self._scheduled, timer)
+        timer._scheduled = True
+        return timer
 
     def run_forever(self):
         sim = self.sim
